@@ -128,7 +128,7 @@ func (P *Program) contractFor(f *ssa.Function) *Contract {
 }
 
 func (P *Program) lookupFunc(key string) *ssa.Function {
-	if f, ok := P.funcs[key]; ok {
+	if f, ok := P.funcs[key]; ok && (f.TypeParams() == nil || f.TypeParams().Len() == 0 || len(f.TypeArgs()) > 0) {
 		return f
 	}
 	// generic: find an instance whose origin has this key
